@@ -18,6 +18,8 @@ Ledger(proto) wraps, on the INSTANCES that grpclib created (never on classes, ne
     Buffer._unacked.get           ('block', sid) when the read suspends on the empty queue, ('wake', sid)
                                   when it is resumed with an item
     acknowledge_received_data     ('ack', sid, size)
+    (the driver adds ('pause',) / ('resume',) when it pauses / resumes the transport)
+The Buffer wrappers stay in place after the stream is released, so reads AFTER release are logged as well.
 
 The wrappers only record and delegate; they change no argument, result or exception.
 """
@@ -213,6 +215,10 @@ def model_tokens(log):
             inp('X:%d' % e[1])
         elif k == 'close':
             inp('Z')
+        elif k == 'pause':
+            inp('P')
+        elif k == 'resume':
+            inp('Q')
         elif k == 'ack':
             if not outs:
                 raise ValueError('acknowledgement before any event')
